@@ -273,3 +273,45 @@ mod tests {
         assert_eq!(arr.get(&[0, 0, 2]), Err(InterpreterError::BadSubscript));
     }
 }
+
+#[cfg(abasic_verif)]
+impl Arrays {
+    pub(crate) fn verif_entries(&self, deep: bool) -> Vec<crate::verif_probe::VerifArray> {
+        use crate::verif_probe::{fnv1a, VerifArray};
+        let mut entries = self
+            .0
+            .iter()
+            .map(|(name, array)| {
+                let mut content_hash = 0xcbf29ce484222325u64;
+                let (is_string, dimensions, cell_count) = match array {
+                    ValueArray::String(a) => {
+                        if deep {
+                            for v in &a.values {
+                                fnv1a(&mut content_hash, v.as_bytes());
+                                fnv1a(&mut content_hash, &[0xff]);
+                            }
+                        }
+                        (true, a.dimensions.clone(), a.values.len())
+                    }
+                    ValueArray::Number(a) => {
+                        if deep {
+                            for v in &a.values {
+                                fnv1a(&mut content_hash, &v.to_bits().to_le_bytes());
+                            }
+                        }
+                        (false, a.dimensions.clone(), a.values.len())
+                    }
+                };
+                VerifArray {
+                    name: name.to_string(),
+                    is_string,
+                    dimensions,
+                    cell_count,
+                    content_hash,
+                }
+            })
+            .collect::<Vec<_>>();
+        entries.sort_by(|a, b| a.name.cmp(&b.name));
+        entries
+    }
+}
